@@ -15,6 +15,7 @@ Decided from the source against ref/rigidity_ref.py (loops summarised as terms):
 Not decided: positivity / monotonicity in alpha numerically (follow from A > 0).
 """
 from ..harness import arr, scalar
+from .. import tq
 from ..interp import State
 from ..terms import Dim, T, V
 
@@ -63,8 +64,10 @@ def check(ctx):
         _scale_once(ctx, r.items[0].term, "componentwise_prediction_rigidity (CPR)", site)
         _scale_once(ctx, r.items[1].term, "componentwise_prediction_rigidity (LCPR)", site)
         # R-SPLIT: mask comparisons
-        t = repr(r.items[0].term)
-        ctx.ob("R-SPLIT", "component masks are half-open intervals (>= lower cut, < upper cut)", ">=" in t and "<" in t and "<=" not in t.replace(">=", ""), "mask comparison operators", site)
+        ops = sorted({(c[0]) for x in tq.walk_all(r.items[0].term) for c in [tq.cmp_parts(x)] if c is not None and x.op in ("lt", "le", "gt", "ge") and any(y.op == "cumsum" for y in tq.walk_all(x))})
+        lo_ok = any(c is not None and c[0] == "le" and tq.has_op(c[1], "cumsum") for x in tq.walk_all(r.items[0].term) for c in [tq.cmp_parts(x)])
+        hi_ok = any(c is not None and c[0] == "lt" and tq.has_op(c[2], "cumsum") for x in tq.walk_all(r.items[0].term) for c in [tq.cmp_parts(x)])
+        ctx.ob("R-SPLIT", "component masks are half-open intervals (>= lower cut, < upper cut)", lo_ok and hi_ok and ops == ["le", "lt"], f"comparison kinds against the cumulative cuts: {ops}", site)
     ctx.no_shape_conflicts("Shape", "componentwise_prediction_rigidity", I, 0, site)
 
 
